@@ -448,9 +448,22 @@ func run(r *mon.Run) {
 			})
 		}
 		edit("resp-header-added", func(e *signedexchange.Exchange) { e.ResponseHeaders["X-Injected"] = []string{"1"} })
+		// names that code around signatures is tempted to treat specially
+		for _, inj := range []string{"Signature", "signature", "SIGNATURE", "Accept-Signature", "Digest2", "MI-Draft3", "Content-Encoding2", "Link", "Set-Cookie2", "Date", "Variants", "Cert-Sha256"} {
+			inj := inj
+			edit("resp-header-added="+inj, func(e *signedexchange.Exchange) {
+				for k := range e.ResponseHeaders {
+					if strings.EqualFold(k, inj) {
+						return
+					}
+				}
+				e.ResponseHeaders[inj] = []string{"injected"}
+			})
+		}
 		edit("resp-header-added-empty", func(e *signedexchange.Exchange) { e.ResponseHeaders["X-Injected"] = []string{""} })
 		if s.spec.Version != version.Version1b3 {
 			edit("req-header-added", func(e *signedexchange.Exchange) { e.RequestHeaders["X-Injected"] = []string{"1"} })
+			edit("req-header-added=signature", func(e *signedexchange.Exchange) { e.RequestHeaders["signature"] = []string{"injected"} })
 			edit("req-header-removed", func(e *signedexchange.Exchange) { e.RequestHeaders = http.Header{} })
 			edit("req-header-value", func(e *signedexchange.Exchange) { e.RequestHeaders["Accept"] = []string{"text/html"} })
 		} else {
